@@ -108,6 +108,7 @@ type Sess struct {
 	Trace []Step
 	Now   func() int64 // local clock as the implementation sees it
 	dead  bool
+	HF    bool // deliver by the headers-first route (Env.DeliverData)
 }
 
 func (p *Prefix) NewSession(tag string) *Sess {
@@ -144,7 +145,13 @@ func (s *Sess) Reopen() {
 // reference accepts the block into its tree ("dup"/"later"/rule name otherwise).
 func (s *Sess) Deliver(name string, b *reftx.Block) (impl, refWhy string) {
 	raw := b.Bytes()
-	impl = s.E.Deliver(raw)
+	if s.HF {
+		// the client's own route: header through PreCheckBlock + AcceptHeader, the data later through
+		// PostCheckBlock on the same Block object, then the gate and CommitBlock
+		impl, _ = s.E.DeliverData(raw)
+	} else {
+		impl = s.E.Deliver(raw)
+	}
 	h := b.Hash()
 	if n, ok := s.M.Nodes[h]; ok {
 		if s.M.Valid(n) {
@@ -172,7 +179,7 @@ func ImplClass(r string) string {
 	switch {
 	case r == "ok" || r == "dup" || r == "later":
 		return r
-	case strings.HasPrefix(r, "refused: check") || strings.HasPrefix(r, "refused: NewBlock"):
+	case strings.HasPrefix(r, "refused: check") || strings.HasPrefix(r, "refused: NewBlock") || strings.HasPrefix(r, "refused: header") || strings.HasPrefix(r, "refused: short"):
 		return "refused-check"
 	case strings.HasPrefix(r, "refused: accept"):
 		return "refused-connect"
